@@ -157,6 +157,48 @@ CHECKS = {
         ref="§3/C18",
         note="Trusted: genops-based stack splitter; stub world for values.",
     ),
+    "C01": dict(
+        level="model_checking",
+        technique=E1 + ", every terminal program and every byte-level corruption of natural malicious pickles run through all analysis entry points inside an audit-hook sandbox",
+        text="Every terminal program over core opcodes x {canary module, canary sub-package, os.system, builtins.eval/exec, sink} resolved through "
+        "GLOBAL / STACK_GLOBAL / INST to depth 4/5, natural __reduce__ payloads (os.system, eval, exec, Popen, socket, nested pickle.loads) at "
+        "protocols 0-5, and every proper prefix and per-offset byte replacement of those, are passed to 12 entry points (parse, stacked parse, "
+        "ast, unparse, trace, check_safety, summaries, is_likely_safe, CLI decompile/trace/check-safety). A CPython audit hook in the worker "
+        "records imports of named modules, exec/compile of non-library code, opens for writing, process/socket/ctypes events, find_class; "
+        "sys.modules, the scratch directory and canary marker files are diffed.",
+        ref="§3/C01, §2/E4",
+        note="Trusted: CPython audit events as the effect monitor (after a warm-up pass); bounded alphabet/depth and corruption alphabet.",
+    ),
+    "C07": dict(
+        level="model_checking",
+        technique=E3 + ": payload trees (loader x container per level) x leaf global x entry point x additions; ground truth from an unprotected reference load",
+        text="All payload trees of depth 0..2 (quick, 91 trees) / 0..3 (thorough, 820) with levels (torch.storage._load_from_bytes | pickle.loads | "
+        "_pickle.loads) x (bare pickle | legacy torch container | zip torch container), 3 leaf globals, through the 4 hooked entry points "
+        "under 4 addition sets. Every pickle.find_class audit event during the protected load must be allowed; if the reference load reaches "
+        "a global outside the allowed set the protected load must raise UnsafeFileError and the sink must stay empty.",
+        ref="§3/C07",
+        note="Trusted: find_class audit events see every unpickler instance; payloads harmless and really loaded; torch 2.14 of this image.",
+    ),
+    "C16": dict(
+        level="model_checking",
+        technique=E3 + ": saved objects x payload strings x overwrite, archive members and reloaded model compared",
+        text="10-21 saved objects (modules, state dicts, nested containers, 5 dtypes x 3 shapes incl. zero-size, shared storages) x 13-40 payloads x "
+        "overwrite: member list and bytes, data.pkl vs the library injection, input sha256, torch.load(weights_only=False) of the result under "
+        "a sink (payload exactly once, exact text) and tensor/dtype/shape/storage-sharing equality.",
+        ref="§3/C16",
+        note="Trusted: torch.save/torch.load of this image as writer and reader.",
+    ),
+    "C17": dict(
+        level="fault_enumeration",
+        technique=E3F + ": 384 synthetic zips against the documented table, real files, all ordered pairs through create_polyglot, and every file-system fault point of each pair",
+        text="32 marker subsets x placement x leading junk x trailer; 9 real files (torch.save zip/legacy, torch.jit.save, legacy tar, MAR, plain zip, "
+        "text, plain pickle); identification twice (determinism), sha256 and directory listing (read-only); every ordered pair through "
+        "create_polyglot, then for each pair the k-th copy/write/extract/append call raises OSError for every k: inputs unchanged, no "
+        "temporary file or directory left, successful outputs identified as both formats.",
+        ref="§3/C17",
+        note="Trusted: decision table transcribed from the documentation; torch's own zip reader for the 'accepted by torch' clause; numpy files are "
+        "left out (fickling's numpy probe uses a private numpy attribute that numpy 2.5 no longer has; the repo's own numpy tests fail for that reason).",
+    ),
 }
 
 NOT_YET = {}
